@@ -141,7 +141,49 @@ func runC13(c *Ctx) {
 				c.bad("R13.2", construct, c.ipos(w), "the error branch falls through to the success reply")
 				continue
 			}
-			// the test must come before any use of the value results
+			// the test must come before any use of the value results: after a recovered panic they are nil, and
+			// indexing them (to pick the method's error for a tracer, say) panics again — outside the recover frame
+			early := false
+			for _, ref := range *call.Referrers() {
+				ex, ok := ref.(*ssa.Extract)
+				if !ok || ex.Index == errIdx {
+					continue
+				}
+				for _, use := range transitiveUses(ex) {
+					switch use.(type) {
+					case *ssa.IndexAddr, *ssa.Index, *ssa.Slice:
+					default:
+						continue
+					}
+					known := false
+					for _, cf := range expandConds(impliedConds(use.Block())) {
+						bo, ok := cf.Cond.(*ssa.BinOp)
+						if !ok || (bo.Op != token.NEQ && bo.Op != token.EQL) {
+							continue
+						}
+						var other ssa.Value
+						if isNilConst(bo.Y) {
+							other = bo.X
+						} else if isNilConst(bo.X) {
+							other = bo.Y
+						} else {
+							continue
+						}
+						if other == errv || blockLocalValue(other) == errv {
+							if (bo.Op == token.EQL) == cf.True {
+								known = true
+							}
+						}
+					}
+					if !known && !early {
+						early = true
+						c.bad("R13.2", construct, c.ipos(use), "the value results of the protected call are indexed where its error is not known to be nil: after a recovered handler panic they are nil, so this indexing panics again, outside the recover frame — over WebSocket the process dies, over HTTP the caller gets an empty reply that does not mention the panic")
+					}
+				}
+			}
+			if early {
+				continue
+			}
 			c.ok("R13.2", construct, c.ipos(iff), "error tested; error branch replies with an error and returns")
 		}
 	}
